@@ -10,7 +10,7 @@ from __future__ import annotations
 
 import json
 
-from common import NCPU, MachineryError, Outcome, cached, drive, run_parallel, seed, tagged_lines, tlc, tlc_ok, tlc_violation, workdir
+from common import NCPU, NSHARDS, shard_hashseed, MachineryError, Outcome, cached, drive, run_parallel, seed, tagged_lines, tlc, tlc_ok, tlc_violation, workdir
 
 PID = "C16"
 INVS = ["ProjectionInvariant", "ObservedKept", "FinalReadsProjection", "SepFaithful"]
@@ -32,7 +32,7 @@ def mc(wd, family):
             raise MachineryError(f"LVMachine design check ({family}): {v} violated\n" + r["out"][-2500:])
         tlc_ok(r, f"LVMachine MC {family}")
         return {"family": family, "generated": r["generated"], "distinct": r["distinct"], "invariants": INVS}
-    return cached(f"lv-mc-{family}", go)
+    return cached(f"lv-mc-{family}", go, module="LVMachine")
 
 
 def gen(wd, family, rnd_seed=None, rndk=8):
@@ -47,7 +47,7 @@ def gen(wd, family, rnd_seed=None, rndk=8):
         return {"recs": recs, "generated": r["generated"], "distinct": r["distinct"]}
     if rnd_seed is not None:
         return go(), False
-    return cached(f"lv-gen-{family}", go)
+    return cached(f"lv-gen-{family}", go, module="LVMachine")
 
 
 def warm():
@@ -59,16 +59,16 @@ def warm():
 
 
 def replay(wd, mode, recs):
-    shards = [recs[i::NCPU] for i in range(NCPU)]
+    shards = [recs[i::NSHARDS] for i in range(NSHARDS)]
     jobs = []
     for i, sh in enumerate(shards):
         if sh:
             f = wd / f"{mode}-in{i}.json"
             f.write_text(json.dumps(sh))
-            jobs.append((f, wd / f"{mode}-out{i}.json"))
+            jobs.append((f, wd / f"{mode}-out{i}.json", i))
 
     def one(job):
-        drive("drive_lv.py", [mode, str(job[0]), str(job[1])])
+        drive("drive_lv.py", [mode, str(job[0]), str(job[1])], hashseed=shard_hashseed(job[2]))
         return json.loads(job[1].read_text())
 
     fails, calls = [], 0
